@@ -418,6 +418,32 @@ def channel_map_deletes(repo):
     return out
 
 
+def socket_poll_forced(repo):
+    """Transport.__init__ puts its own short poll timeout on the socket it is given, as an unconditional top-level
+    statement `self.sock.settimeout(self._active_check_timeout)`, and the class constant is at most one second.
+    (The transport thread notices `close()` / `active = False` only when its read times out.)"""
+    import ast
+
+    tree = ast.parse(open(os.path.join(repo, "paramiko", "transport.py")).read())
+    for cls in ast.walk(tree):
+        if isinstance(cls, ast.ClassDef) and cls.name == "Transport":
+            const = None
+            for st in cls.body:
+                if isinstance(st, ast.Assign) and any(isinstance(t, ast.Name) and t.id == "_active_check_timeout"
+                                                      for t in st.targets):
+                    if isinstance(st.value, ast.Constant) and isinstance(st.value.value, (int, float)):
+                        const = st.value.value
+            for fn in cls.body:
+                if isinstance(fn, ast.FunctionDef) and fn.name == "__init__":
+                    for st in fn.body:  # top level of __init__ only: not under an if / try
+                        if (isinstance(st, ast.Expr) and isinstance(st.value, ast.Call)
+                                and ast.unparse(st.value.func) == "self.sock.settimeout"
+                                and len(st.value.args) == 1
+                                and ast.unparse(st.value.args[0]) == "self._active_check_timeout"):
+                            return const is not None and 0 < const <= 1
+    return False
+
+
 def lean_table(repo):
     ss = sites(repo)
     td = teardown(repo)
@@ -466,5 +492,7 @@ def lean_table(repo):
                                                      "true" if w["loopChecksActive"] else "false",
                                                      "true" if w["loopChecksFlag"] else "false") for w in ws),
               "]", "",
+              "/-- `Transport.__init__` unconditionally puts its own poll timeout (a class constant ≤ 1 s) on the socket -/",
+              "def socketPollForced : Bool := %s" % ("true" if socket_poll_forced(repo) else "false"), "",
               "end PV.Generated.C13", ""]
     return "\n".join(lines), ss
